@@ -188,6 +188,7 @@ impl Heap {
     //  - the process mirrors its root task: same state once the root is terminal, not terminal before (task.rs set_state / context.rs emit_task);
     //    stated for a root task that was never revived by a catch (workflows declare no catches; a revived root is outside the mirror)
     //  - an error is recorded only on a task in state Error (set_state clears it otherwise); only the root task sits on the workflow node
+    #[verifier::opaque]
     pub open spec fn wf(&self) -> bool {
         &&& self.has(self.cur)
         &&& (self.has(ROOT_TID@) && self.tasks[ROOT_TID@].revived == 0 ==> (if st_terminal(self.st(ROOT_TID@)) { self.proc_state == self.st(ROOT_TID@) } else { !st_terminal(self.proc_state) }))
@@ -469,6 +470,7 @@ pub proof fn lemma_meta(a: Heap, b: Heap)
         a.upserts.is_prefix_of(b.upserts) && a.messages.is_prefix_of(b.messages),
     ensures fwd(a, b), a.wf() && b.has(b.cur) ==> b.wf(),
 {
+    reveal(Heap::wf);
     assert forall|t: Tid| #[trigger] a.has(t) implies b.has(t) && task_fwd(a.tasks[t], b.tasks[t]) by {}
     if a.wf() && b.has(b.cur) {
         assert forall|y: Tid| #[trigger] b.has(y) implies (b.tasks[y].err is Some ==> b.st(y) is Error) && (b.tasks[y].node.s_kind() == NodeKind::Workflow <==> y == ROOT_TID@)
@@ -478,12 +480,14 @@ pub proof fn lemma_meta(a: Heap, b: Heap)
     }
 }
 pub proof fn lemma_stub_cur(a: Heap, t: Tid) requires a.has(t) ensures fwd(a, Heap { cur: t, ..a }), a.wf() ==> (Heap { cur: t, ..a }).wf()
-{ lemma_meta(a, Heap { cur: t, ..a }); }
+{
+    reveal(Heap::wf); lemma_meta(a, Heap { cur: t, ..a }); }
 pub proof fn lemma_stub_flag(a: Heap, t: Tid, k: Seq<char>, v: bool)
     requires a.has(t)
     ensures fwd(a, Heap { tasks: a.tasks.insert(t, TaskAbs { flags: a.tasks[t].flags.insert(k, v), ..a.tasks[t] }), ..a }),
             a.wf() && (k != consts::IS_CATCH_PROCESSED@ || v) ==> (Heap { tasks: a.tasks.insert(t, TaskAbs { flags: a.tasks[t].flags.insert(k, v), ..a.tasks[t] }), ..a }).wf(),
 {
+    reveal(Heap::wf);
     let b = Heap { tasks: a.tasks.insert(t, TaskAbs { flags: a.tasks[t].flags.insert(k, v), ..a.tasks[t] }), ..a };
     assert(b.tasks.dom() =~= a.tasks.dom());
     assert forall|y: Tid| #[trigger] a.has(y) implies b.has(y) && task_fwd(a.tasks[y], b.tasks[y]) by {}
@@ -491,7 +495,8 @@ pub proof fn lemma_stub_flag(a: Heap, t: Tid, k: Seq<char>, v: bool)
 }
 pub proof fn lemma_stub_data(a: Heap, b: Heap, t: Tid)
     requires a.has(t), data_written(a, b, t) ensures fwd(a, b), a.wf() ==> b.wf(), b.cur == a.cur
-{ assert(b.tasks.dom() =~= a.tasks.dom()); lemma_meta(a, b); }
+{
+    reveal(Heap::wf); assert(b.tasks.dom() =~= a.tasks.dom()); lemma_meta(a, b); }
 pub proof fn lemma_stub_logs(a: Heap, t: Tid, s: TaskState, e: Error, m: (Seq<char>, Seq<char>, MessageStatus), act: Option<Action>)
     requires a.has(t)
     ensures
@@ -501,6 +506,7 @@ pub proof fn lemma_stub_logs(a: Heap, t: Tid, s: TaskState, e: Error, m: (Seq<ch
         fwd(a, Heap { action: act, ..a }), a.wf() ==> (Heap { action: act, ..a }).wf(),
         fwd(a, Heap { proc_state: s, ..a }), fwd(a, Heap { proc_state: TaskState::Error, proc_err: Some(e), ..a }),
 {
+    reveal(Heap::wf);
     lemma_meta(a, Heap { queue: a.queue.push(t), ..a });
     lemma_meta(a, Heap { proc_events: a.proc_events.push(a.proc_state), ..a });
     lemma_meta(a, Heap { msg_closed: a.msg_closed.push(m), ..a });
@@ -515,6 +521,7 @@ pub proof fn lemma_stub_create(a: Heap, x: Tid, node: Arc<Node>, prev: Option<Ti
     ensures fwd(a, Heap { tasks: a.tasks.insert(x, fresh_task(node, prev, a.next_seq)), next_seq: a.next_seq + 1, ..a }),
             a.wf() && node.s_kind() != NodeKind::Workflow ==> (Heap { tasks: a.tasks.insert(x, fresh_task(node, prev, a.next_seq)), next_seq: a.next_seq + 1, ..a }).wf(),
 {
+    reveal(Heap::wf);
     let b = Heap { tasks: a.tasks.insert(x, fresh_task(node, prev, a.next_seq)), next_seq: a.next_seq + 1, ..a };
     assert forall|y: Tid| #[trigger] a.has(y) implies b.has(y) && task_fwd(a.tasks[y], b.tasks[y]) by {}
     if a.wf() && node.s_kind() != NodeKind::Workflow {
@@ -535,6 +542,7 @@ pub proof fn lemma_stub_set_state(a: Heap, t: Tid, s: TaskState)
     requires a.has(t), legal(a.st(t), s) || catch_revive(a.tasks[t], s)
     ensures fwd(a, set_state_spec(a, t, s)), a.wf() ==> set_state_spec(a, t, s).wf(),
 {
+    reveal(Heap::wf);
     let g = set_state_spec(a, t, s);
     assert forall|y: Tid| #[trigger] a.has(y) implies g.has(y) && task_fwd(a.tasks[y], g.tasks[y]) by {}
     if a.wf() {
@@ -548,6 +556,7 @@ pub proof fn lemma_stub_set_err(a: Heap, t: Tid, e: Error)
     ensures fwd(a, set_state_spec(Heap { tasks: a.tasks.insert(t, TaskAbs { err: Some(e), ..a.tasks[t] }), ..a }, t, TaskState::Error)),
             a.wf() ==> set_state_spec(Heap { tasks: a.tasks.insert(t, TaskAbs { err: Some(e), ..a.tasks[t] }), ..a }, t, TaskState::Error).wf(),
 {
+    reveal(Heap::wf);
     let a1 = Heap { tasks: a.tasks.insert(t, TaskAbs { err: Some(e), ..a.tasks[t] }), ..a };
     let g = set_state_spec(a1, t, TaskState::Error);
     assert forall|y: Tid| #[trigger] a.has(y) implies g.has(y) && task_fwd(a.tasks[y], g.tasks[y]) by {}
@@ -560,7 +569,8 @@ pub proof fn lemma_stub_set_err(a: Heap, t: Tid, e: Error)
 pub proof fn lemma_data_only_fwd(a: Heap, b: Heap)
     requires data_only(a, b)
     ensures fwd(a, b), a.wf() ==> b.wf(), a.cur == b.cur
-{ lemma_meta(a, b); }
+{
+    reveal(Heap::wf); lemma_meta(a, b); }
 // TRUSTED: Vec::extend_from_slice appends (R7: `v.extend_from_slice(&e)` -> `vec_extend(&mut v, e)`)
 #[verifier::external_body]
 pub fn vec_extend<T: Clone>(v: &mut Vec<T>, e: Vec<T>) ensures final(v)@ == old(v)@ + e@ { unimplemented!() }
@@ -718,6 +728,91 @@ impl Task {
         requires h.has(self.id@)
         ensures r.tid@ == self.id@, r.state == msg_state_of(h.st(self.id@)) { unimplemented!() }
 }
+pub open spec fn hooks_add(h: Heap, t: Tid, k: TaskLifeCycle, b: StatementBatch) -> Heap {
+    let m = hooks_of(h, t);
+    let l = if m.dom().contains(k) { m[k] } else { Seq::<StatementBatch>::empty() };
+    Heap { hooks: h.hooks.insert(t, m.insert(k, l.push(b))), ..h }
+}
+impl Task {
+    // task.rs: add_hook_stmts / add_hook_catch / add_hook_timeout = hooks.entry(key).and_modify(push).or_insert(vec![batch])
+    #[verifier::external_body]
+    pub fn add_hook_stmts(&self, key: TaskLifeCycle, value: &Act, Tracked(h): Tracked<&mut Heap>)
+        requires old(h).has(self.id@)
+        ensures *final(h) == hooks_add(*old(h), self.id@, key, StatementBatch::Statement(*value)),
+                fwd(*old(h), *final(h)), old(h).wf() ==> final(h).wf(), final(h).cur == old(h).cur,     // consequences (lemma_stub_hooks)
+    { unimplemented!() }
+    #[verifier::external_body]
+    pub fn add_hook_catch(&self, key: TaskLifeCycle, value: &Catch, Tracked(h): Tracked<&mut Heap>)
+        requires old(h).has(self.id@), key is ErrorCatch
+        ensures *final(h) == hooks_add(*old(h), self.id@, key, StatementBatch::Catch(*value)),
+                fwd(*old(h), *final(h)), old(h).wf() ==> final(h).wf(), final(h).cur == old(h).cur,     // consequences
+    { unimplemented!() }
+    #[verifier::external_body]
+    pub fn add_hook_timeout(&self, key: TaskLifeCycle, value: &Timeout, Tracked(h): Tracked<&mut Heap>)
+        requires old(h).has(self.id@), key is Timeout
+        ensures *final(h) == hooks_add(*old(h), self.id@, key, StatementBatch::Timeout(*value)),
+                fwd(*old(h), *final(h)), old(h).wf() ==> final(h).wf(), final(h).cur == old(h).cur,     // consequences
+    { unimplemented!() }
+    // task.rs: params() evaluates the act params once and caches them in the task data (data only)
+    #[verifier::external_body]
+    pub fn params(&self, Tracked(h): Tracked<&mut Heap>) -> (r: JsonValue)
+        requires old(h).has(self.id@)
+        ensures data_only(*old(h), *final(h)), fwd(*old(h), *final(h)), old(h).wf() ==> final(h).wf(), final(h).cur == old(h).cur,
+    { unimplemented!() }
+}
+pub proof fn lemma_stub_hooks(a: Heap, t: Tid, k: TaskLifeCycle, b: StatementBatch)
+    requires a.has(t), (b is Catch ==> k is ErrorCatch), (b is Timeout ==> k is Timeout)
+    ensures fwd(a, hooks_add(a, t, k, b)), a.wf() ==> hooks_add(a, t, k, b).wf()
+{
+    reveal(Heap::wf);
+    let g = hooks_add(a, t, k, b);
+    assert forall|y: Tid| #[trigger] a.has(y) implies g.has(y) && task_fwd(a.tasks[y], g.tasks[y]) by {}
+    if a.wf() {
+        assert forall|y: Tid| #[trigger] g.has(y) implies (g.tasks[y].err is Some ==> g.st(y) is Error) && (g.tasks[y].node.s_kind() == NodeKind::Workflow <==> y == ROOT_TID@)
+            && (g.tasks[y].revived > 0 ==> catch_flag(g.tasks[y])) && g.tasks[y].seq < g.next_seq && prev_in(g, y) by { reveal(prev_in); assert(a.has(y)); assert(prev_in(a, y)); }
+        assert forall|y: Tid, p: Tid| #[trigger] g.has(y) && #[trigger] g.has(p) && g.tasks[y].prev == Some(p) implies g.tasks[p].seq < g.tasks[y].seq by { assert(a.has(y) && a.has(p)); }
+        assert forall|t2: Tid, k2: TaskLifeCycle, i: int| #![trigger g.hooks[t2][k2][i]] g.hooks.dom().contains(t2) && g.hooks[t2].dom().contains(k2) && 0 <= i < g.hooks[t2][k2].len()
+            && !(k2 is ErrorCatch) && !(k2 is Timeout) implies g.hooks[t2][k2][i] is Statement by {
+            if t2 == t && k2 == k {
+                let m = hooks_of(a, t);
+                let l = if m.dom().contains(k) { m[k] } else { Seq::<StatementBatch>::empty() };
+                if i < l.len() { assert(a.hooks.dom().contains(t) && a.hooks[t].dom().contains(k)); assert(a.hooks[t][k][i] is Statement); }
+            } else if t2 == t {
+                assert(a.hooks.dom().contains(t) && a.hooks[t].dom().contains(k2)); assert(a.hooks[t][k2][i] is Statement);
+            } else {
+                assert(a.hooks[t2][k2][i] is Statement);
+            }
+        }
+    }
+}
+impl Process {
+    // R8: `ctx.proc.with_env_mut(|data| { for (k, v) in self.env.iter() { data.set(k, v.clone()); } })` -- process env only (not part of the task heap)
+    #[verifier::external_body]
+    pub fn set_env_from(&self, env: &Vars) { unimplemented!() }
+}
+impl Context {
+    // context.rs: build_acts builds run-time act nodes under the current task's node (tree/build.rs dyn_build_act): node links change
+    #[verifier::external_body]
+    pub fn build_acts(&self, acts: &Vec<Act>, is_sequence: bool, Tracked(h): Tracked<&mut Heap>) -> (r: Result<()>)
+        ensures *final(h) == (Heap { links_rev: final(h).links_rev, ..*old(h) }),
+                fwd(*old(h), *final(h)), old(h).wf() ==> final(h).wf(), final(h).cur == old(h).cur,     // consequences
+    { unimplemented!() }
+}
+// the `$...` flag keys are pairwise different (literal texts repeated from utils/consts.rs; a changed constant makes this lemma fail -> UNDECIDED)
+pub proof fn lemma_flag_keys()
+    ensures consts::TASK_EMIT_DISABLED@ != consts::IS_CATCH_PROCESSED@, consts::TASK_AUOT_COMPLETE@ != consts::IS_CATCH_PROCESSED@,
+            consts::IS_EVENT_PROCESSED@ != consts::IS_CATCH_PROCESSED@, consts::TASK_EMIT_DISABLED@ != consts::TASK_AUOT_COMPLETE@,
+            forall|on: Seq<char>| #[trigger] (consts::IS_TIMEOUT_PROCESSED_PREFIX@ + on) != consts::IS_CATCH_PROCESSED@,
+{
+    reveal_strlit("$emit_disabled"); reveal_strlit("$is_catch_processed"); reveal_strlit("$auto_complete"); reveal_strlit("$is_event_processed"); reveal_strlit("$is_timeout_");
+    assert(consts::TASK_EMIT_DISABLED@.len() == 14 && consts::IS_CATCH_PROCESSED@.len() == 19 && consts::TASK_AUOT_COMPLETE@.len() == 14 && consts::IS_EVENT_PROCESSED@.len() == 19);
+    assert(consts::TASK_EMIT_DISABLED@[1] != consts::TASK_AUOT_COMPLETE@[1]);
+    assert(consts::IS_EVENT_PROCESSED@[4] != consts::IS_CATCH_PROCESSED@[4]);
+    assert forall|on: Seq<char>| #[trigger] (consts::IS_TIMEOUT_PROCESSED_PREFIX@ + on) != consts::IS_CATCH_PROCESSED@ by {
+        assert((consts::IS_TIMEOUT_PROCESSED_PREFIX@ + on)[4] == consts::IS_TIMEOUT_PROCESSED_PREFIX@[4]);
+        assert(consts::IS_TIMEOUT_PROCESSED_PREFIX@[4] != consts::IS_CATCH_PROCESSED@[4]);
+    }
+}
 pub uninterp spec fn flag_as<T>(b: bool) -> T;      // a boolean data entry read at type T
 // TRUSTED: serde reads a JSON bool as the bool (Vars::get::<bool>)
 #[verifier::external_body]
@@ -799,7 +894,7 @@ impl Context {
     pub fn vars(&self) -> (r: Vars) { unimplemented!() }
     #[verifier::external_body]
     pub fn task(&self, Tracked(h): Tracked<&Heap>) -> (r: Arc<Task>)
-        requires h.wf() ensures r.id@ == h.cur, wf_task(*h, *r) { unimplemented!() }
+        requires h.wf() ensures r.id@ == h.cur, wf_task(*h, *r), h.has(h.cur) { unimplemented!() }
     #[verifier::external_body]
     pub fn set_task(&self, task: &Arc<Task>, Tracked(h): Tracked<&mut Heap>)
         requires wf_task(*old(h), **task)
